@@ -477,3 +477,37 @@ fn format_fragment(
     printer = printer.with_capacity(capacity);
     Some(printer.print(&ir))
 }
+
+/// Verification hook (feature `verif`): the private text helpers of range formatting, unchanged.
+#[cfg(feature = "verif")]
+pub mod verif {
+    use rowan::{TextRange, TextSize};
+
+    pub fn clamp_range(range: TextRange, upper_bound: TextSize) -> TextRange {
+        super::clamp_range(range, upper_bound)
+    }
+    pub fn expand_to_full_lines(text: &str, range: TextRange) -> TextRange {
+        super::expand_to_full_lines(text, range)
+    }
+    pub fn line_start_offset(text: &str, offset: usize) -> usize {
+        super::line_start_offset(text, offset)
+    }
+    pub fn line_end_offset(text: &str, offset: usize) -> usize {
+        super::line_end_offset(text, offset)
+    }
+    pub fn line_indent_prefix(text: &str, line_start: TextSize) -> String {
+        super::line_indent_prefix(text, line_start)
+    }
+    pub fn strip_base_indent(text: &str, indent_prefix: &str) -> String {
+        super::strip_base_indent(text, indent_prefix)
+    }
+    pub fn apply_base_indent(text: &str, indent_prefix: &str) -> String {
+        super::apply_base_indent(text, indent_prefix)
+    }
+    pub fn contains_range(container: TextRange, inner: TextRange) -> bool {
+        super::contains_range(container, inner)
+    }
+    pub fn intersects_range(left: TextRange, right: TextRange) -> bool {
+        super::intersects_range(left, right)
+    }
+}
